@@ -301,7 +301,7 @@ func (c *Check) issuerFuncs(u *feeUnits) map[*Func]bool {
 			for _, pa := range c.P.PathsOf(f) {
 				for _, ev := range pa.Events {
 					if ev.Kind == EvCall && issuers[ev.CI.fn] {
-						if l := c.providerListArg(ev.CI.fn, ev); l != nil && l.Op == "" && strings.HasPrefix(l.At, "P") && !issuers[f] {
+						if l := c.providerListArg(ev.CI.fn, ev); l != nil && fromOwnParam(l) && !issuers[f] {
 							issuers[f] = true
 							changed = true
 						}
